@@ -171,6 +171,20 @@ def build(case, max_points=1500):
     return B
 
 
+def classify(case, B, ctx):
+    """generator statistics for the evidence file: which of the size / typing classes this case belongs to"""
+    n = len(B.allowed)
+    ctx.event("allowed-reflections:" + ("<=100" if n <= 100 else "<=1000" if n <= 1000 else "<=5000" if n <= 5000 else ">5000"))
+    if case.get("aspect") is not None:
+        ctx.event("needle-or-plate-cell (one axis 20-200x the others)")
+    if case.get("max_points"):
+        ctx.event("shell-cap-lifted-to-%d-points" % case["max_points"])
+    if len(B.allowed) and max(max(abs(x) for x in h) for h in B.allowed) >= 100:
+        ctx.event("indices>=100-in-shell")
+    if not isinstance(B.cell_arg, tuple) and all(isinstance(x, (int, np.integer)) for x in (B.cell_arg.tolist() if hasattr(B.cell_arg, "tolist") else B.cell_arg)):
+        ctx.event("integer-typed-cell")
+
+
 def rows_to_int(A):
     A = np.asarray(A, float)
     if A.ndim != 2 or A.shape[1] < 3:
